@@ -648,12 +648,14 @@ void vsim_block_owner(const vsim_block_info_t *b, char *out, size_t n)
 }
 
 /* ------------------------------------------------------------------ byzantine peer: skip handshake messages (guarded hook) */
-static int g_skip_node = -1, g_skip_type = -1, g_skip_count = 0; static uint64_t g_skipped;
-void vsim_hs_skip(int node, int hs_type, int count) { g_skip_node = node; g_skip_type = hs_type; g_skip_count = count; if (node < 0) { g_skipped = 0; } }
+static int g_skip_node = -1, g_skip_type = -1, g_skip_type2 = -1, g_skip_count = 0, g_skip_count2 = 0; static uint64_t g_skipped;
+void vsim_hs_skip(int node, int hs_type, int count) { g_skip_node = node; g_skip_type = hs_type; g_skip_count = count; g_skip_type2 = -1; g_skip_count2 = 0; if (node < 0) { g_skipped = 0; } }
+void vsim_hs_skip_also(int hs_type2, int count) { g_skip_type2 = hs_type2; g_skip_count2 = count; }   /* a second message type omitted by the same node */
 uint64_t vsim_hs_skipped(void) { return g_skipped; }
 int psVerifHsSkip(const void *ssl, int hsType)
 {
     (void) ssl;
     if (g_skip_node == t_node && g_skip_type == hsType && g_skip_count > 0) { g_skip_count--; g_skipped++; return 1; }
+    if (g_skip_node == t_node && g_skip_type2 == hsType && g_skip_count2 > 0) { g_skip_count2--; g_skipped++; return 1; }
     return 0;
 }
